@@ -78,97 +78,18 @@ theorem tok_trim (sep : Char → Bool) (s : Str) (h : ∀ c ∈ s, isUniWs c = t
 
 /-! ### class buffers -/
 
-theorem classTokens_space (x : Str) : classTokens (' ' :: x) = classTokens x := by
-  simp [classTokens, tok, isClassSep, isWs, flush]
-
-theorem classTokens_append (a b : Str) (hb : b = [] ∨ ∃ y, b = ' ' :: y) :
-    classTokens (a ++ b) = classTokens a ++ classTokens b := by
-  rcases hb with rfl | ⟨y, rfl⟩
-  · simp [classTokens, tok, flush]
-  · unfold classTokens
-    rw [tok_append_sep isClassSep ' ' (by decide) y a [], ← classTokens, ← classTokens, ← classTokens,
-      classTokens_space]
-
-theorem classBuf_head (A : List Attr) : classBuf A = [] ∨ ∃ y, classBuf A = ' ' :: y := by
-  induction A with
-  | nil => simp [classBuf]
-  | cons a r ih => cases a <;> simp [classBuf, ih]
-
-theorem classTokens_classBuf (L : List TAttr) :
-    classTokens (classBuf (L.map builderAttr)) = classDen L := by
+theorem classSrc_builder (L : List TAttr) : classBuf (L.map builderAttr) = classSrc L := by
   induction L with
-  | nil => simp [classBuf, classDen, classTokens, tok, flush]
+  | nil => rfl
   | cons a r ih =>
     cases a with
-    | cls d v =>
-      simp only [List.map_cons, builderAttr, classBuf, classDen]
-      rw [List.cons_append, classTokens_space, classTokens_append _ _ (classBuf_head _), ih]
-    | clsToggle n b =>
-      cases b
-      · simp only [List.map_cons, builderAttr, classBuf, classDen]
-        simpa [classTokens_space] using ih
-      · simp only [List.map_cons, builderAttr, classBuf, classDen, if_true]
-        rw [List.cons_append, classTokens_space, classTokens_append _ _ (classBuf_head _), ih]
-    | clsTuple n b =>
-      cases b
-      · simp only [List.map_cons, builderAttr, classBuf, classDen]
-        simpa [classTokens_space] using ih
-      · simp only [List.map_cons, builderAttr, classBuf, classDen, if_true]
-        rw [List.cons_append, classTokens_space, classTokens_append _ _ (classBuf_head _), ih]
-    | plain d n v => simpa [builderAttr, classBuf, classDen] using ih
-    | flag n => simpa [builderAttr, classBuf, classDen] using ih
-    | boolDyn n b => simpa [builderAttr, classBuf, classDen] using ih
-    | style d v => simpa [builderAttr, classBuf, classDen] using ih
-    | styleKV d n v => simpa [builderAttr, classBuf, classDen] using ih
+    | clsToggle n b => cases b <;> simp [builderAttr, classBuf, classSrc, ih]
+    | clsTuple n b => cases b <;> simp [builderAttr, classBuf, classSrc, ih]
+    | _ => simp [builderAttr, classBuf, classSrc, ih]
 
-/-- the strings that end up in the class buffer -/
-def clsStrings (L : List TAttr) : List Str := L.flatMap attrClassStrings
-
-theorem wsOK_mem {s : Str} (h : wsOK s = true) {c : Char} (hc : c ∈ s) (hw : isUniWs c = true) :
-    isClassSep c = true := by
-  have := List.all_eq_true.mp h c hc
-  simpa [hw] using this
-
-theorem mem_space_append {c : Char} {n X : Str} (hc : c ∈ ' ' :: (n ++ X)) : c = ' ' ∨ c ∈ n ∨ c ∈ X := by
-  simpa using hc
-
-theorem classBuf_ws (L : List TAttr) (h : ∀ s ∈ clsStrings L, wsOK s = true) :
-    ∀ c ∈ classBuf (L.map builderAttr), isUniWs c = true → isClassSep c = true := by
-  induction L with
-  | nil => simp [classBuf]
-  | cons a r ih =>
-    have hr : ∀ s ∈ clsStrings r, wsOK s = true := fun s hs => h s (by simp [clsStrings] at hs ⊢; exact Or.inr hs)
-    have ih' := ih hr
-    have sp : isClassSep ' ' = true := by decide
-    have key : ∀ (n : Str), wsOK n = true → ∀ c ∈ ' ' :: (n ++ classBuf (r.map builderAttr)),
-        isUniWs c = true → isClassSep c = true := by
-      intro n hn c hc hw
-      rcases mem_space_append hc with rfl | hc | hc
-      · exact sp
-      · exact wsOK_mem hn hc hw
-      · exact ih' c hc hw
-    cases a with
-    | cls d v =>
-      have hv : wsOK v = true := h v (by simp [clsStrings, attrClassStrings])
-      simpa [builderAttr, classBuf] using key v hv
-    | clsToggle n b =>
-      have hv : wsOK n = true := h n (by simp [clsStrings, attrClassStrings])
-      cases b
-      · simpa [builderAttr, classBuf] using key [] (by decide)
-      · simpa [builderAttr, classBuf] using key n hv
-    | clsTuple n b =>
-      have hv : wsOK n = true := h n (by simp [clsStrings, attrClassStrings])
-      cases b
-      · simpa [builderAttr, classBuf] using key [] (by decide)
-      · simpa [builderAttr, classBuf] using key n hv
-    | plain d n v => simpa [builderAttr, classBuf] using ih'
-    | flag n => simpa [builderAttr, classBuf] using ih'
-    | boolDyn n b => simpa [builderAttr, classBuf] using ih'
-    | style d v => simpa [builderAttr, classBuf] using ih'
-    | styleKV d n v => simpa [builderAttr, classBuf] using ih'
-
-theorem classDen_nil_of_classBuf_nil (L : List TAttr) (h : classBuf (L.map builderAttr) = []) : classDen L = [] := by
-  rw [← classTokens_classBuf, h]; rfl
+theorem trim_space (v : Str) : trim (' ' :: v) = trim v := by
+  have : isUniWs ' ' = true := by decide
+  simp [trim, List.dropWhile_cons, this]
 
 /-! ### style buffers -/
 
@@ -273,16 +194,15 @@ theorem parts_plain (l : List (Str × Str)) (h : ∀ a ∈ l, a.1 ≠ sClass ∧
 
 def plainNameOK (n : Str) : Bool := attrNameOK n && n != sClass && n != sStyle
 
-/-- names tokenizable and not `class`/`style`, values without NUL/CR, class strings without
-Unicode-only white space -/
+/-- names tokenizable and not `class`/`style`, values without NUL/CR -/
 def tattrOK : TAttr → Bool
   | .plain _ n v => plainNameOK n && clean v
   | .flag n => plainNameOK n
   | .boolDyn n _ => plainNameOK n
-  | .cls _ v => clean v && wsOK v
+  | .cls _ v => clean v
   | .style _ v => clean v
-  | .clsToggle n _ => clean n && wsOK n
-  | .clsTuple n _ => clean n && wsOK n
+  | .clsToggle n _ => clean n
+  | .clsTuple n _ => clean n
   | .styleKV _ n v => clean n && clean v
 
 def plainNames : List TAttr → List Str
@@ -383,25 +303,14 @@ theorem plainDen_ok (attrs : List TAttr) (h : attrs.all tattrOK = true) :
 
 theorem sClass_ne_sStyle : sClass ≠ sStyle := by decide
 
-theorem joinSep_nil_iff_class (l : List Str) (h : ∀ t ∈ l, t ≠ []) : joinSep ' ' l = [] ↔ l = [] := by
-  cases l with
-  | nil => simp [joinSep]
-  | cons a r =>
-    cases r with
-    | nil => simpa [joinSep] using h a (by simp)
-    | cons b r => simp [joinSep]
-
 /-- class attribute of the builder path, normalised -/
-theorem classPart_builder (L : List TAttr) (hws : ∀ s ∈ clsStrings L, wsOK s = true) :
+theorem classPart_builder (L : List TAttr) :
     classPart (if classBuf (L.map builderAttr) = [] then [] else [(sClass, trim (classBuf (L.map builderAttr)))]) =
-      optAttr sClass (joinSep ' ' (classDen L)) := by
+      optAttr sClass (normClass (trim (classSrc L))) := by
+  rw [classSrc_builder]
   split
-  · next h => simp [classPart, classDen_nil_of_classBuf_nil L h, joinSep, optAttr]
-  · simp only [classPart, if_true, List.append_nil, normClass]
-    have : classTokens (trim (classBuf (L.map builderAttr))) = classDen L := by
-      rw [← classTokens_classBuf]
-      exact tok_trim isClassSep _ (classBuf_ws L hws)
-    rw [this]
+  · next h => rw [h]; decide
+  · simp [classPart]
 
 theorem stylePart_builder (L : List TAttr) :
     stylePart (if styleBuf (L.map builderAttr) = [] then [] else [(sStyle, trim (styleBuf (L.map builderAttr)))]) =
@@ -412,20 +321,12 @@ theorem stylePart_builder (L : List TAttr) :
   · simp only [stylePart, if_true, List.append_nil]
     rw [normStyle_trim _ (styleSrc_end L)]
 
-theorem clsStrings_sort (attrs : List TAttr) (h : attrs.all tattrOK = true) :
-    ∀ s ∈ clsStrings (sortAttrs attrs), wsOK s = true := by
-  intro s hs
-  simp only [clsStrings, List.mem_flatMap] at hs
-  obtain ⟨a, ha, hsa⟩ := hs
-  have hok := List.all_eq_true.mp h a (mem_sortAttrs ha)
-  cases a <;> simp_all [attrClassStrings, tattrOK]
-
 /-- **attributes, builder path**: what tachys prints for the sorted builder attributes normalises to what
 the template gives the element -/
 theorem normAttrs_builder (attrs : List TAttr) (h : attrs.all tattrOK = true) :
     normAttrs (expectedAttrs (builderAttrs attrs)) = denAttrs attrs := by
   obtain ⟨p1, p2, p3⟩ := parts_plain (plainDen attrs) (plainDen_ok attrs h)
-  have hc := classPart_builder (sortAttrs attrs) (clsStrings_sort attrs h)
+  have hc := classPart_builder (sortAttrs attrs)
   have hs := stylePart_builder (sortAttrs attrs)
   have hcs : stylePart (if classBuf (builderAttrs attrs) = [] then [] else [(sClass, trim (classBuf (builderAttrs attrs)))]) = [] := by
     split <;> simp [stylePart, sClass_ne_sStyle]
@@ -495,7 +396,7 @@ def inertAttrView : TAttr → Attr
   | .plain _ n v => .plain n v
   | .flag n => .bool n true
   | .boolDyn n b => .bool n b
-  | .cls _ v => .plain sClass v
+  | .cls _ v => .plain sClass (trim v)
   | .style _ v => .plain sStyle v
   | .clsToggle n _ => .bool n false
   | .clsTuple n _ => .bool n false
@@ -547,14 +448,10 @@ theorem expectedAttrs_inert (attrs : List TAttr) :
     expectedAttrs (attrs.map inertAttrView) = plainFlat (attrs.map inertAttrView) := by
   simp [expectedAttrs, classBuf_inert, styleBuf_inert]
 
-theorem classDen_append (a b : List TAttr) : classDen (a ++ b) = classDen a ++ classDen b := by
+theorem classSrc_append (a b : List TAttr) : classSrc (a ++ b) = classSrc a ++ classSrc b := by
   induction a with
   | nil => rfl
-  | cons x a ih =>
-    cases x with
-    | clsToggle n on => cases on <;> simp [classDen, ih]
-    | clsTuple n on => cases on <;> simp [classDen, ih]
-    | _ => simp [classDen, ih]
+  | cons x a ih => cases x <;> simp [classSrc, ih]
 
 theorem styleSrc_append (a b : List TAttr) : styleSrc (a ++ b) = styleSrc a ++ styleSrc b := by
   induction a with
@@ -562,29 +459,29 @@ theorem styleSrc_append (a b : List TAttr) : styleSrc (a ++ b) = styleSrc a ++ s
   | cons x a ih => cases x <;> simp [styleSrc, ih]
 
 theorem sort_inert (attrs : List TAttr) (hi : attrs.all attrInert = true) :
-    classDen (sortAttrs attrs) = classDen attrs ∧ styleSrc (sortAttrs attrs) = styleSrc attrs := by
-  have h0 : classDen (attrs.filter (fun a => sortKey a = 0)) = classDen attrs ∧
+    classSrc (sortAttrs attrs) = classSrc attrs ∧ styleSrc (sortAttrs attrs) = styleSrc attrs := by
+  have h0 : classSrc (attrs.filter (fun a => sortKey a = 0)) = classSrc attrs ∧
       styleSrc (attrs.filter (fun a => sortKey a = 0)) = styleSrc attrs ∧
-      classDen (attrs.filter (fun a => sortKey a = 1)) = [] ∧
+      classSrc (attrs.filter (fun a => sortKey a = 1)) = [] ∧
       styleSrc (attrs.filter (fun a => sortKey a = 1)) = [] ∧
-      classDen (attrs.filter (fun a => sortKey a = 2)) = [] ∧
+      classSrc (attrs.filter (fun a => sortKey a = 2)) = [] ∧
       styleSrc (attrs.filter (fun a => sortKey a = 2)) = [] := by
     induction attrs with
-    | nil => simp [classDen, styleSrc]
+    | nil => simp [classSrc, styleSrc]
     | cons a r ih =>
       simp only [List.all_cons, Bool.and_eq_true] at hi
       obtain ⟨i1, i2, i3, i4, i5, i6⟩ := ih hi.2
       cases a <;>
         simp_all [List.filter_cons, sortKey_plain, sortKey_flag, sortKey_boolDyn, sortKey_cls, sortKey_style,
-          sortKey_clsToggle, sortKey_clsTuple, sortKey_styleKV, classDen, styleSrc, attrInert]
+          sortKey_clsToggle, sortKey_clsTuple, sortKey_styleKV, classSrc, styleSrc, attrInert]
   obtain ⟨a1, a2, a3, a4, a5, a6⟩ := h0
-  simp [sortAttrs, classDen_append, styleSrc_append, a1, a2, a3, a4, a5, a6]
+  simp [sortAttrs, classSrc_append, styleSrc_append, a1, a2, a3, a4, a5, a6]
 
 theorem no_cls (r : List TAttr) (hi : r.all attrInert = true) (hok : r.all tattrOK = true)
     (h : (r.filter isCls).length = 0) :
-    classPart (plainFlat (r.map inertAttrView)) = [] ∧ classDen r = [] := by
+    classPart (plainFlat (r.map inertAttrView)) = [] ∧ classSrc r = [] := by
   induction r with
-  | nil => simp [classPart, plainFlat, classDen]
+  | nil => simp [classPart, plainFlat, classSrc]
   | cons a r ih =>
     simp only [List.all_cons, Bool.and_eq_true] at hi hok
     cases a with
@@ -594,17 +491,17 @@ theorem no_cls (r : List TAttr) (hi : r.all attrInert = true) (hok : r.all tattr
       obtain ⟨h1, h2⟩ := ih hi.2 hok.2 hr
       have hn : n ≠ sClass := by
         have := hok.1; simp only [tattrOK, plainNameOK, Bool.and_eq_true, bne_iff_ne, ne_eq] at this; exact this.1.1.2
-      simp [inertAttrView, plainFlat, classPart, classDen, hn, h1, h2]
+      simp [inertAttrView, plainFlat, classPart, classSrc, hn, h1, h2]
     | flag n =>
       have hr : (r.filter isCls).length = 0 := by simpa [List.filter_cons, isCls] using h
       obtain ⟨h1, h2⟩ := ih hi.2 hok.2 hr
       have hn : n ≠ sClass := by
         have := hok.1; simp only [tattrOK, plainNameOK, Bool.and_eq_true, bne_iff_ne, ne_eq] at this; exact this.1.2
-      simp [inertAttrView, plainFlat, classPart, classDen, hn, h1, h2]
+      simp [inertAttrView, plainFlat, classPart, classSrc, hn, h1, h2]
     | style d v =>
       have hr : (r.filter isCls).length = 0 := by simpa [List.filter_cons, isCls] using h
       obtain ⟨h1, h2⟩ := ih hi.2 hok.2 hr
-      simp [inertAttrView, plainFlat, classPart, classDen, sClass_ne_sStyle.symm, h1, h2]
+      simp [inertAttrView, plainFlat, classPart, classSrc, sClass_ne_sStyle.symm, h1, h2]
     | boolDyn n b => simp [attrInert] at hi
     | clsToggle n b => simp [attrInert] at hi
     | clsTuple n b => simp [attrInert] at hi
@@ -642,9 +539,9 @@ theorem no_style (r : List TAttr) (hi : r.all attrInert = true) (hok : r.all tat
 
 theorem classPart_inert (attrs : List TAttr) (hi : attrs.all attrInert = true) (hok : attrs.all tattrOK = true)
     (h : (attrs.filter isCls).length ≤ 1) :
-    classPart (plainFlat (attrs.map inertAttrView)) = optAttr sClass (joinSep ' ' (classDen attrs)) := by
+    classPart (plainFlat (attrs.map inertAttrView)) = optAttr sClass (normClass (trim (classSrc attrs))) := by
   induction attrs with
-  | nil => simp [classPart, plainFlat, classDen, joinSep, optAttr]
+  | nil => decide
   | cons a r ih =>
     simp only [List.all_cons, Bool.and_eq_true] at hi hok
     cases a with
@@ -652,20 +549,20 @@ theorem classPart_inert (attrs : List TAttr) (hi : attrs.all attrInert = true) (
       have hr : (r.filter isCls).length = 0 := by
         simp only [List.filter_cons, isCls, if_true, List.length_cons] at h; omega
       obtain ⟨h1, h2⟩ := no_cls r hi.2 hok.2 hr
-      simp [inertAttrView, plainFlat, classPart, classDen, h1, h2, normClass]
+      simp [inertAttrView, plainFlat, classPart, classSrc, h1, h2, trim_space]
     | plain d n v =>
       have hr : (r.filter isCls).length ≤ 1 := by simpa [List.filter_cons, isCls] using h
       have hn : n ≠ sClass := by
         have := hok.1; simp only [tattrOK, plainNameOK, Bool.and_eq_true, bne_iff_ne, ne_eq] at this; exact this.1.1.2
-      simp [inertAttrView, plainFlat, classPart, classDen, hn, ih hi.2 hok.2 hr]
+      simp [inertAttrView, plainFlat, classPart, classSrc, hn, ih hi.2 hok.2 hr]
     | flag n =>
       have hr : (r.filter isCls).length ≤ 1 := by simpa [List.filter_cons, isCls] using h
       have hn : n ≠ sClass := by
         have := hok.1; simp only [tattrOK, plainNameOK, Bool.and_eq_true, bne_iff_ne, ne_eq] at this; exact this.1.2
-      simp [inertAttrView, plainFlat, classPart, classDen, hn, ih hi.2 hok.2 hr]
+      simp [inertAttrView, plainFlat, classPart, classSrc, hn, ih hi.2 hok.2 hr]
     | style d v =>
       have hr : (r.filter isCls).length ≤ 1 := by simpa [List.filter_cons, isCls] using h
-      simp [inertAttrView, plainFlat, classPart, classDen, sClass_ne_sStyle.symm, ih hi.2 hok.2 hr]
+      simp [inertAttrView, plainFlat, classPart, classSrc, sClass_ne_sStyle.symm, ih hi.2 hok.2 hr]
     | boolDyn n b => simp [attrInert] at hi
     | clsToggle n b => simp [attrInert] at hi
     | clsTuple n b => simp [attrInert] at hi
@@ -737,7 +634,7 @@ theorem normAttrs_inert (attrs : List TAttr) (hi : attrs.all attrInert = true) (
   rw [otherPart_inert attrs hi hok, classPart_inert attrs hi hok hc, stylePart_inert attrs hi hok hs, s1, s2]
 
 
-/-! ### the inert subtree as a tachys view: adjacent literals are one string, empty ones vanish -/
+/-! ### the inert subtree as a tachys view: adjacent literals are one string (an empty one is a space) -/
 
 def consTextNode (s : Str) : List Node → List Node
   | .text s' :: r => .text (s ++ s') :: r
@@ -745,8 +642,8 @@ def consTextNode (s : Str) : List Node → List Node
 
 def inertKidsView : List Tmpl → List Node
   | [] => []
-  | .text s :: ts => consTextNode s (inertKidsView ts)
-  | .block s :: ts => consTextNode s (inertKidsView ts)
+  | .text s :: ts => consTextNode (textDen true s) (inertKidsView ts)
+  | .block s :: ts => consTextNode (textDen true s) (inertKidsView ts)
   | .elem tag attrs kids :: ts =>
     .elem tag (attrs.map inertAttrView) (if macroIsVoid tag then [] else inertKidsView kids) :: inertKidsView ts
   | .frag _ :: ts => inertKidsView ts
@@ -764,27 +661,27 @@ def inertView : Tmpl → Node
 /-! ### well-formed templates (hypothesis of the main theorems) -/
 
 def titleKidsT : List Tmpl → Bool
-  | [.text s] => clean s && s != []
-  | [.block s] => clean s && s != []
+  | [.text s] => clean s
+  | [.block s] => clean s
   | _ => false
 
 mutual
-/-- `ae`: empty strings allowed; `anc`: tags of the open elements, innermost first.  Elements as in C06's
-`wfNode` (ordinary containers in any nesting the tree builder accepts, void elements, raw-text elements
-without children, `<title>` with one non-empty string), attribute lists the macro accepts, fragments and
-`<Wrap>` anywhere a `<section>` may stand. -/
-def wfT (ae : Bool) (anc : List Str) : Tmpl → Bool
-  | .text s => clean s && (ae || s != [])
-  | .block s => clean s && (ae || s != [])
+/-- `anc`: tags of the open elements, innermost first.  Elements as in C06's `wfNode` (ordinary containers in
+any nesting the tree builder accepts, void elements, raw-text elements without children, `<title>` with one
+string), attribute lists the macro accepts, fragments and `<Wrap>` anywhere a `<section>` may stand; strings
+without U+0000 / U+000D. -/
+def wfT (anc : List Str) : Tmpl → Bool
+  | .text s => clean s
+  | .block s => clean s
   | .elem tag attrs kids =>
     tattrsOK attrs && nestOK tag anc &&
-      ((genericOK tag && wfTs ae (tag :: anc) kids) || (voidOK tag && kids.isEmpty) ||
+      ((genericOK tag && wfTs (tag :: anc) kids) || (voidOK tag && kids.isEmpty) ||
        (rawLike tag && kids.isEmpty) || (tag = tTitle && titleKidsT kids))
-  | .frag kids => wfTs ae anc kids
-  | .comp kids => nestOK sSection anc && wfTs ae (sSection :: anc) kids
-def wfTs (ae : Bool) (anc : List Str) : List Tmpl → Bool
+  | .frag kids => wfTs anc kids
+  | .comp kids => nestOK sSection anc && wfTs (sSection :: anc) kids
+def wfTs (anc : List Str) : List Tmpl → Bool
   | [] => true
-  | t :: ts => wfT ae anc t && wfTs ae anc ts
+  | t :: ts => wfT anc t && wfTs anc ts
 end
 
 /-! ### tag facts -/
@@ -809,10 +706,15 @@ theorem macroIsVoid_eq (t : Str) : macroIsVoid t = (isVoid t || t == sParam) := 
       · exact Or.inr (Or.inl h)
   cases hm : macroIsVoid t <;> cases hv : isVoid t <;> cases hp : (t == sParam) <;> simp_all
 
+theorem macroEscapes_eq (t : Str) : macroEscapes t = escapeChildren t := by
+  have : macroNoEscape.contains t = rawTags.contains t := by
+    simp only [macroNoEscape, rawTags, List.contains_cons, List.contains_nil, Bool.or_false]
+    cases (t == tScript) <;> cases (t == tStyle) <;> cases (t == tTextarea) <;> cases (t == tNoscript) <;> rfl
+  unfold macroEscapes escapeChildren
+  rw [this]
+
 theorem macroEscapes_of {t : Str} (h : escapeChildren t = true) : macroEscapes t = true := by
-  simp only [escapeChildren, rawTags, Bool.not_eq_true', List.contains_eq_mem, List.mem_cons, List.not_mem_nil,
-    or_false, decide_eq_false_iff_not, not_or] at h
-  simp [macroEscapes, macroNoEscape, h.2.1, h.2.2.1, h.2.2.2]
+  rw [macroEscapes_eq]; exact h
 
 theorem generic_facts {tag : Str} (hg : genericOK tag = true) :
     isVoid tag = false ∧ escapeChildren tag = true ∧ macroIsVoid tag = false ∧ macroEscapes tag = true := by
@@ -862,8 +764,8 @@ theorem good_consText (s : Str) (X : List Node) (h : Good X) : Good (consTextNod
 
 theorem good_inertKids : (ks : List Tmpl) → Good (inertKidsView ks)
   | [] => by intro s R e; simp [inertKidsView] at e
-  | .text s :: ts => by simpa [inertKidsView] using good_consText s _ (good_inertKids ts)
-  | .block s :: ts => by simpa [inertKidsView] using good_consText s _ (good_inertKids ts)
+  | .text s :: ts => by simpa [inertKidsView] using good_consText (textDen true s) _ (good_inertKids ts)
+  | .block s :: ts => by simpa [inertKidsView] using good_consText (textDen true s) _ (good_inertKids ts)
   | .elem tag attrs kids :: ts => by intro s R e; simp [inertKidsView] at e
   | .frag _ :: ts => by simpa [inertKidsView] using good_inertKids ts
   | .comp _ :: ts => by simpa [inertKidsView] using good_inertKids ts
@@ -1094,7 +996,16 @@ theorem inertNames_nodup (attrs : List TAttr) (hi : attrs.all attrInert = true) 
 
 theorem attrClean_inert (a : TAttr) (hi : attrInert a = true) (h : tattrOK a = true) :
     attrClean (inertAttrView a) = true := by
-  cases a <;> simp_all [tattrOK, inertAttrView, attrClean, plainNameOK, attrInert] <;> decide
+  cases a with
+  | cls d v =>
+    have hc : clean v = true := by simpa [tattrOK] using h
+    have hn : attrNameOK sClass = true := by decide
+    simp [inertAttrView, attrClean, hn, clean_trim v hc]
+  | style d v =>
+    have hc : clean v = true := by simpa [tattrOK] using h
+    have hn : attrNameOK sStyle = true := by decide
+    simp [inertAttrView, attrClean, hn, hc]
+  | _ => simp_all [tattrOK, inertAttrView, attrClean, plainNameOK, attrInert]
 
 theorem attrsOK_inert (attrs : List TAttr) (hi : attrs.all attrInert = true) (h : tattrsOK attrs = true) :
     attrsOK (attrs.map inertAttrView) = true := by
@@ -1117,30 +1028,46 @@ theorem innerBuf_inert (attrs : List TAttr) : innerBuf (attrs.map inertAttrView)
 /-! ### the inert printer against the inert view -/
 
 theorem titleKidsT_cases {kids : List Tmpl} (h : titleKidsT kids = true) :
-    ∃ s, (kids = [.text s] ∨ kids = [.block s]) ∧ clean s = true ∧ s ≠ [] := by
+    ∃ s, (kids = [.text s] ∨ kids = [.block s]) ∧ clean s = true := by
   unfold titleKidsT at h
   split at h
-  · next s => exact ⟨s, Or.inl rfl, by simpa using h⟩
-  · next s => exact ⟨s, Or.inr rfl, by simpa using h⟩
+  · next s => exact ⟨s, Or.inl rfl, h⟩
+  · next s => exact ⟨s, Or.inr rfl, h⟩
   · cases h
 
-theorem title_wfTs {kids : List Tmpl} (h : titleKidsT kids = true) (ae : Bool) (anc : List Str) :
-    wfTs ae anc kids = true := by
-  obtain ⟨s, hk, hc, hne⟩ := titleKidsT_cases h
-  rcases hk with rfl | rfl <;> simp [wfTs, wfT, hc, hne]
+theorem title_wfTs {kids : List Tmpl} (h : titleKidsT kids = true) (anc : List Str) :
+    wfTs anc kids = true := by
+  obtain ⟨s, hk, hc⟩ := titleKidsT_cases h
+  rcases hk with rfl | rfl <;> simp [wfTs, wfT, hc]
+
+theorem inert_text (s : Str) : inertNodeHtml true (.text s) = escapeText (textDen true s) := by
+  cases s with
+  | nil => decide
+  | cons c cs => simp [inertNodeHtml, textDen]
+
+theorem textDen_ne (s : Str) : textDen true s ≠ [] := by
+  cases s <;> simp [textDen]
+
+theorem textDen_eq (s : Str) : (if s = [] then [' '] else s) = textDen true s := by
+  cases s <;> simp [textDen]
+
+theorem clean_textDen (s : Str) (h : clean s = true) : clean (textDen true s) = true := by
+  cases s with
+  | nil => decide
+  | cons c cs => simpa [textDen] using h
 
 theorem nextChild_irrel (X : List Node) : kidsHtml true .nextChild X = kidsHtml true .firstChild X :=
   kidsHtml_pos X .nextChild (by intro h; cases h)
 
 /-- **inert path, bytes**: the macro-time printer writes exactly what tachys writes for the inert view -/
-theorem inert_html : (ks : List Tmpl) → ∀ (anc : List Str), wfTs true anc ks = true → inertKids ks = true →
+theorem inert_html : (ks : List Tmpl) → ∀ (anc : List Str), wfTs anc ks = true → inertKids ks = true →
     inertKidsHtml true ks = kidsHtml true .firstChild (inertKidsView ks)
   | [], _, _, _ => by simp [inertKidsHtml, inertKidsView, kidsHtml]
   | .text s :: ts, anc, hw, hi => by
     simp only [wfTs, wfT, Bool.and_eq_true] at hw
     simp only [inertKids, inertNode, Bool.true_and] at hi
-    rw [inertKidsView, html_consText s _ (good_inertKids ts), ← inert_html ts anc hw.2 hi]
-    simp [inertKidsHtml, inertNodeHtml]
+    rw [inertKidsView, html_consText (textDen true s) _ (good_inertKids ts), ← inert_html ts anc hw.2 hi]
+    simp [inertKidsHtml, inert_text]
   | .block s :: ts, _, _, hi => by simp [inertKids, inertNode] at hi
   | .frag k :: ts, _, _, hi => by simp [inertKids, inertNode] at hi
   | .comp k :: ts, _, _, hi => by simp [inertKids, inertNode] at hi
@@ -1176,18 +1103,18 @@ theorem inert_html : (ks : List Tmpl) → ∀ (anc : List Str), wfTs true anc ks
     · simp only [decide_eq_true_eq] at htitle
       subst htitle
       obtain ⟨f1, f2, f3, f4, _⟩ := title_facts
-      have ihk := inert_html kids (tTitle :: anc) (title_wfTs htk true _) hik
+      have ihk := inert_html kids (tTitle :: anc) (title_wfTs htk _) hik
       exact key (by rw [f1, f3]) (fun _ => by rw [f2, f4]; exact ihk)
 
 /-- **inert path, meaning**: the structure of the inert view normalises to what the template denotes -/
-theorem inert_struct : (ks : List Tmpl) → ∀ (anc : List Str), wfTs true anc ks = true → inertKids ks = true →
-    ∀ Q : List Tree, normList (structKids .firstChild (inertKidsView ks) ++ Q) = denKs ks (normList Q)
+theorem inert_struct : (ks : List Tmpl) → ∀ (anc : List Str), wfTs anc ks = true → inertKids ks = true →
+    ∀ Q : List Tree, normList (structKids .firstChild (inertKidsView ks) ++ Q) = denKs true ks (normList Q)
   | [], _, _, _ => by intro Q; simp [inertKidsView, structKids, denKs]
   | .text s :: ts, anc, hw, hi => by
     intro Q
     simp only [wfTs, wfT, Bool.and_eq_true] at hw
     simp only [inertKids, inertNode, Bool.true_and] at hi
-    rw [inertKidsView, struct_consText s _ Q (good_inertKids ts), inert_struct ts anc hw.2 hi Q]
+    rw [inertKidsView, struct_consText (textDen true s) _ Q (good_inertKids ts), inert_struct ts anc hw.2 hi Q]
     simp [denKs, denK]
   | .block s :: ts, _, _, hi => by simp [inertKids, inertNode] at hi
   | .frag k :: ts, _, _, hi => by simp [inertKids, inertNode] at hi
@@ -1205,9 +1132,9 @@ theorem inert_struct : (ks : List Tmpl) → ∀ (anc : List Str), wfTs true anc 
     have key : ∀ (facts : isVoid tag = macroIsVoid tag)
         (body : macroIsVoid tag = false →
           normList (if escapeChildren tag = true then structKids .firstChild (inertKidsView kids)
-                    else textTree (rawText (inertKidsView kids))) = denKs kids []),
+                    else textTree (rawText (inertKidsView kids))) = denKs (escapeChildren tag) kids []),
         normList (structKids .firstChild (inertKidsView (.elem tag attrs kids :: ts)) ++ Q) =
-          denKs (.elem tag attrs kids :: ts) (normList Q) := by
+          denKs true (.elem tag attrs kids :: ts) (normList Q) := by
       intro facts body
       simp only [inertKidsView, structKids, structNode, posAfter, hI, if_true, List.cons_append, List.nil_append,
         normList, normNode, pushNorm, hN, htail, iht, denKs, denK, facts]
@@ -1230,25 +1157,25 @@ theorem inert_struct : (ks : List Tmpl) → ∀ (anc : List Str), wfTs true anc 
     · simp only [decide_eq_true_eq] at htitle
       subst htitle
       obtain ⟨f1, f2, f3, f4, _⟩ := title_facts
-      have ihk := inert_struct kids (tTitle :: anc) (title_wfTs htk true _) hik []
+      have ihk := inert_struct kids (tTitle :: anc) (title_wfTs htk _) hik []
       exact key (by rw [f1, f3]) (fun _ => by simpa [f2, normList] using ihk)
 
 theorem title_inertKids {kids : List Tmpl} (h : titleKidsT kids = true) (hi : inertKids kids = true) :
     titleKids (inertKidsView kids) = true := by
-  obtain ⟨s, hk, hc, hne⟩ := titleKidsT_cases h
+  obtain ⟨s, hk, hc⟩ := titleKidsT_cases h
   rcases hk with rfl | rfl
-  · simp [inertKidsView, consTextNode, hne, titleKids, hc]
+  · simp [inertKidsView, consTextNode, textDen_ne, titleKids, clean_textDen s hc]
   · simp [inertKids, inertNode] at hi
 
 /-- **inert path, well-formedness**: the inert view is inside C06's proved class -/
-theorem inert_wf : (ks : List Tmpl) → ∀ (anc : List Str), wfTs true anc ks = true → inertKids ks = true →
+theorem inert_wf : (ks : List Tmpl) → ∀ (anc : List Str), wfTs anc ks = true → inertKids ks = true →
     wfKids anc (inertKidsView ks) = true
   | [], _, _, _ => by simp [inertKidsView, wfKids]
   | .text s :: ts, anc, hw, hi => by
     simp only [wfTs, wfT, Bool.and_eq_true] at hw
     simp only [inertKids, inertNode, Bool.true_and] at hi
     rw [inertKidsView]
-    exact wf_consText s _ anc hw.1.1 (inert_wf ts anc hw.2 hi)
+    exact wf_consText (textDen true s) _ anc (clean_textDen s hw.1) (inert_wf ts anc hw.2 hi)
   | .block s :: ts, _, _, hi => by simp [inertKids, inertNode] at hi
   | .frag k :: ts, _, _, hi => by simp [inertKids, inertNode] at hi
   | .comp k :: ts, _, _, hi => by simp [inertKids, inertNode] at hi
@@ -1304,29 +1231,6 @@ theorem builderKids_eq : (ts : List Tmpl) → ∀ top, builderKids ts = viewKids
   | t :: ts, top => by simp [builderKids, viewKids, builderView_eq t top, builderKids_eq ts top]
 end
 
-mutual
-theorem wfT_mono : (t : Tmpl) → ∀ anc, wfT false anc t = true → wfT true anc t = true
-  | .text s, _, h => by simp only [wfT, Bool.and_eq_true] at h ⊢; exact ⟨h.1, by simp⟩
-  | .block s, _, h => by simp only [wfT, Bool.and_eq_true] at h ⊢; exact ⟨h.1, by simp⟩
-  | .elem tag attrs kids, anc, h => by
-    simp only [wfT, Bool.and_eq_true, Bool.or_eq_true] at h ⊢
-    obtain ⟨h1, hcase⟩ := h
-    refine ⟨h1, ?_⟩
-    rcases hcase with ((⟨hg, hk⟩ | hv) | hr) | ht
-    · exact Or.inl (Or.inl (Or.inl ⟨hg, wfTs_mono kids _ hk⟩))
-    · exact Or.inl (Or.inl (Or.inr hv))
-    · exact Or.inl (Or.inr hr)
-    · exact Or.inr ht
-  | .frag kids, anc, h => by simp only [wfT] at h ⊢; exact wfTs_mono kids anc h
-  | .comp kids, anc, h => by
-    simp only [wfT, Bool.and_eq_true] at h ⊢; exact ⟨h.1, wfTs_mono kids _ h.2⟩
-theorem wfTs_mono : (ts : List Tmpl) → ∀ anc, wfTs false anc ts = true → wfTs true anc ts = true
-  | [], _, _ => by simp [wfTs]
-  | t :: ts, anc, h => by
-    simp only [wfTs, Bool.and_eq_true] at h ⊢
-    exact ⟨wfT_mono t anc h.1, wfTs_mono ts anc h.2⟩
-end
-
 theorem wfKids_append (anc : List Str) (A B : List Node) :
     wfKids anc (A ++ B) = (wfKids anc A && wfKids anc B) := by
   induction A with
@@ -1355,20 +1259,20 @@ theorem attrsOK_nil : attrsOK [] = true := by decide
 
 mutual
 /-- **well-formedness**: both views of a well-formed template are inside C06's proved class -/
-theorem wf_view : (t : Tmpl) → ∀ (ui top : Bool) (anc : List Str), wfT false anc t = true →
+theorem wf_view : (t : Tmpl) → ∀ (ui top : Bool) (anc : List Str), wfT anc t = true →
     wfKids anc (viewOf ui top t) = true
   | .text s, _, _, _, h => by
-    simp only [wfT, Bool.and_eq_true] at h
-    simp [viewOf, wfKids, wfNode, h.1]
+    simp only [wfT] at h
+    simp [viewOf, wfKids, wfNode, h]
   | .block s, _, _, _, h => by
-    simp only [wfT, Bool.and_eq_true] at h
-    simp [viewOf, wfKids, wfNode, h.1]
+    simp only [wfT] at h
+    simp [viewOf, wfKids, wfNode, h]
   | .elem tag attrs kids, ui, top, anc, h => by
     by_cases hb : (ui && (!top && isInert (.elem tag attrs kids))) = true
     · have hi : isInert (.elem tag attrs kids) = true := by
         simp only [Bool.and_eq_true] at hb; exact hb.2.2
-      have hw : wfTs true anc [.elem tag attrs kids] = true := by
-        simp only [wfTs, Bool.and_true]; exact wfT_mono _ anc h
+      have hw : wfTs anc [.elem tag attrs kids] = true := by
+        simp only [wfTs, Bool.and_true]; exact h
       have := inert_wf [.elem tag attrs kids] anc hw (inertNode_of_isInert hi)
       rw [inertView_single] at this
       simpa [viewOf, hb] using this
@@ -1389,7 +1293,7 @@ theorem wf_view : (t : Tmpl) → ∀ (ui top : Bool) (anc : List Str), wfT false
       · simp only [decide_eq_true_eq] at htitle
         subst htitle
         obtain ⟨f1, f2, f3, f4, _⟩ := title_facts
-        obtain ⟨s, hk, hc, hne⟩ := titleKidsT_cases htk
+        obtain ⟨s, hk, hc⟩ := titleKidsT_cases htk
         refine Or.inr ⟨by simp, ?_⟩
         rcases hk with rfl | rfl <;> simp [f3, viewKids, viewOf, titleKids, hc]
   | .frag kids, ui, top, anc, h => by
@@ -1399,7 +1303,7 @@ theorem wf_view : (t : Tmpl) → ∀ (ui top : Bool) (anc : List Str), wfT false
     simp only [wfT, Bool.and_eq_true] at h
     have ihk := wf_viewKids kids ui true (sSection :: anc) h.2
     simp [viewOf, wfKids, wfNode, attrsOK_nil, h.1, genericOK_section, ihk]
-theorem wf_viewKids : (ts : List Tmpl) → ∀ (ui top : Bool) (anc : List Str), wfTs false anc ts = true →
+theorem wf_viewKids : (ts : List Tmpl) → ∀ (ui top : Bool) (anc : List Str), wfTs anc ts = true →
     wfKids anc (viewKids ui top ts) = true
   | [], _, _, _, _ => by simp [viewKids, wfKids]
   | t :: ts, ui, top, anc, h => by
@@ -1412,25 +1316,23 @@ theorem section_facts : isVoid sSection = false ∧ escapeChildren sSection = tr
 
 mutual
 /-- **meaning**: the structure of either view normalises to what the template denotes -/
-theorem struct_view : (t : Tmpl) → ∀ (ui top : Bool) (anc : List Str), wfT false anc t = true →
-    ∀ (pos : Pos) (Q : List Tree), normList (structKids pos (viewOf ui top t) ++ Q) = denK t (normList Q)
+theorem struct_view : (t : Tmpl) → ∀ (ui top : Bool) (anc : List Str), wfT anc t = true →
+    ∀ (pos : Pos) (Q : List Tree), normList (structKids pos (viewOf ui top t) ++ Q) = denK true t (normList Q)
   | .text s, _, _, _, h => by
     intro pos Q
-    simp only [wfT, Bool.and_eq_true, Bool.false_or, bne_iff_ne, ne_eq] at h
     by_cases hp : pos = .afterText <;>
-      simp [viewOf, structKids, structNode, h.2, hp, normList, normNode, pushNorm, denK]
+      simp [viewOf, structKids, structNode, hp, normList, normNode, pushNorm, denK, textDen_eq]
   | .block s, _, _, _, h => by
     intro pos Q
-    simp only [wfT, Bool.and_eq_true, Bool.false_or, bne_iff_ne, ne_eq] at h
     by_cases hp : pos = .afterText <;>
-      simp [viewOf, structKids, structNode, h.2, hp, normList, normNode, pushNorm, denK]
+      simp [viewOf, structKids, structNode, hp, normList, normNode, pushNorm, denK, textDen_eq]
   | .elem tag attrs kids, ui, top, anc, h => by
     intro pos Q
     by_cases hb : (ui && (!top && isInert (.elem tag attrs kids))) = true
     · have hi : isInert (.elem tag attrs kids) = true := by
         simp only [Bool.and_eq_true] at hb; exact hb.2.2
-      have hw : wfTs true anc [.elem tag attrs kids] = true := by
-        simp only [wfTs, Bool.and_true]; exact wfT_mono _ anc h
+      have hw : wfTs anc [.elem tag attrs kids] = true := by
+        simp only [wfTs, Bool.and_true]; exact h
       have := inert_struct [.elem tag attrs kids] anc hw (inertNode_of_isInert hi) Q
       rw [inertView_single] at this
       rw [struct_pos _ pos .firstChild Q]
@@ -1447,9 +1349,9 @@ theorem struct_view : (t : Tmpl) → ∀ (ui top : Bool) (anc : List Str), wfT f
       have key : ∀ (facts : isVoid tag = macroIsVoid tag)
           (body : macroIsVoid tag = false →
             normList (if escapeChildren tag = true then structKids .firstChild (viewKids ui false kids)
-                      else textTree (rawText (viewKids ui false kids))) = denKs kids []),
+                      else textTree (rawText (viewKids ui false kids))) = denKs (escapeChildren tag) kids []),
           normList (structKids pos (viewOf ui top (.elem tag attrs kids)) ++ Q) =
-            denK (.elem tag attrs kids) (normList Q) := by
+            denK true (.elem tag attrs kids) (normList Q) := by
         intro facts body
         simp only [viewOf, hb, if_false, structKids, structNode, hI, if_true, List.cons_append, List.nil_append,
           List.append_nil, normList, normNode, pushNorm, hN, denK, facts, Bool.false_eq_true]
@@ -1472,7 +1374,7 @@ theorem struct_view : (t : Tmpl) → ∀ (ui top : Bool) (anc : List Str), wfT f
       · simp only [decide_eq_true_eq] at htitle
         subst htitle
         obtain ⟨f1, f2, f3, f4, _⟩ := title_facts
-        have ihk := struct_viewKids kids ui false (tTitle :: anc) (title_wfTs htk false _) .firstChild []
+        have ihk := struct_viewKids kids ui false (tTitle :: anc) (title_wfTs htk _) .firstChild []
         exact key (by rw [f1, f3]) (fun _ => by simpa [f2, normList] using ihk)
   | .frag kids, ui, top, anc, h => by
     intro pos Q
@@ -1486,8 +1388,8 @@ theorem struct_view : (t : Tmpl) → ∀ (ui top : Bool) (anc : List Str), wfT f
     have : innerBuf ([] : List Attr) = [] := rfl
     simp only [List.append_nil, normList] at ihk
     simp [viewOf, structKids, structNode, f1, f2, this, normList, normNode, pushNorm, normAttrs_nil, denK, ihk]
-theorem struct_viewKids : (ts : List Tmpl) → ∀ (ui top : Bool) (anc : List Str), wfTs false anc ts = true →
-    ∀ (pos : Pos) (Q : List Tree), normList (structKids pos (viewKids ui top ts) ++ Q) = denKs ts (normList Q)
+theorem struct_viewKids : (ts : List Tmpl) → ∀ (ui top : Bool) (anc : List Str), wfTs anc ts = true →
+    ∀ (pos : Pos) (Q : List Tree), normList (structKids pos (viewKids ui top ts) ++ Q) = denKs true ts (normList Q)
   | [], _, _, _, _ => by intro pos Q; simp [viewKids, structKids, denKs]
   | t :: ts, ui, top, anc, h => by
     intro pos Q
@@ -1522,7 +1424,7 @@ theorem Rel.single {e : Exp} {n : Node} (he : ∀ pos, expHtml true pos e = node
     (hp : expPosAfter e = posAfter n) : Rel [e] [n] := Rel.cons he hp Rel.nil
 
 mutual
-theorem rel_view : (t : Tmpl) → ∀ (top : Bool) (anc : List Str), wfT false anc t = true →
+theorem rel_view : (t : Tmpl) → ∀ (top : Bool) (anc : List Str), wfT anc t = true →
     Rel (expand top t) (viewOf true top t)
   | .text s, _, _, _ => by
     simp only [expand, viewOf]
@@ -1534,8 +1436,8 @@ theorem rel_view : (t : Tmpl) → ∀ (top : Bool) (anc : List Str), wfT false a
     by_cases hb : (!top && isInert (.elem tag attrs kids)) = true
     · have hi : isInert (.elem tag attrs kids) = true := by
         simp only [Bool.and_eq_true] at hb; exact hb.2
-      have hw : wfTs true anc [.elem tag attrs kids] = true := by
-        simp only [wfTs, Bool.and_true]; exact wfT_mono _ anc h
+      have hw : wfTs anc [.elem tag attrs kids] = true := by
+        simp only [wfTs, Bool.and_true]; exact h
       have := inert_html [.elem tag attrs kids] anc hw (inertNode_of_isInert hi)
       rw [inertView_single] at this
       simp only [expand, viewOf, hb, if_true, Bool.true_and]
@@ -1574,7 +1476,7 @@ theorem rel_view : (t : Tmpl) → ∀ (top : Bool) (anc : List Str), wfT false a
       · simp only [decide_eq_true_eq] at htitle
         subst htitle
         obtain ⟨f1, f2, f3, f4, _⟩ := title_facts
-        have ihk := (rel_viewKids kids false (tTitle :: anc) (title_wfTs htk false _)).html .firstChild
+        have ihk := (rel_viewKids kids false (tTitle :: anc) (title_wfTs htk _)).html .firstChild
         exact key (fun _ => by simpa [f2, f3] using ihk)
   | .frag kids, top, anc, h => by
     simp only [wfT] at h
@@ -1588,7 +1490,7 @@ theorem rel_view : (t : Tmpl) → ∀ (top : Bool) (anc : List Str), wfT false a
     intro pos
     have : innerBuf ([] : List Attr) = [] := rfl
     simp [expHtml, nodeHtml, f1, f2, this, ihk]
-theorem rel_viewKids : (ts : List Tmpl) → ∀ (top : Bool) (anc : List Str), wfTs false anc ts = true →
+theorem rel_viewKids : (ts : List Tmpl) → ∀ (top : Bool) (anc : List Str), wfTs anc ts = true →
     Rel (expandKids top ts) (viewKids true top ts)
   | [], _, _, _ => by simp only [expandKids, viewKids]; exact Rel.nil
   | t :: ts, top, anc, h => by
@@ -1598,121 +1500,79 @@ theorem rel_viewKids : (ts : List Tmpl) → ∀ (top : Bool) (anc : List Str), w
 end
 
 /-- `view!{…}.to_html()` prints what tachys prints for the mixed view -/
-theorem macroHtml_eq (ts : List Tmpl) (h : wfTs false [[]] ts = true) :
+theorem macroHtml_eq (ts : List Tmpl) (h : wfTs [[]] ts = true) :
     macroHtml ts = toHtml (viewKids true true ts) := by
   unfold macroHtml toHtml
   exact (rel_viewKids ts true [[]] h).html .firstChild
 
 
-/-! ### the finding classes lie outside the well-formedness hypothesis -/
+/-! ### the remaining finding class lies outside the well-formedness hypothesis -/
 
-def Seen.bad (s : Seen) : Bool := s.noscriptInert || s.rawMarker || s.classWs || s.emptyText
-
-theorem generic_not_raw {tag : Str} (hg : genericOK tag = true) : tag ≠ tNoscript ∧ tag ≠ tTitle := by
+theorem generic_not_title {tag : Str} (hg : genericOK tag = true) : tag ≠ tTitle := by
   simp only [genericOK, Bool.and_eq_true, decide_eq_true_eq] at hg
   have hk := hg.1.1.1.1
-  constructor <;> (intro e; subst e; revert hk; decide)
+  intro e; subst e; revert hk; decide
 
 mutual
-theorem noNoscriptText : (t : Tmpl) → ∀ (ae : Bool) (anc : List Str), wfT ae anc t = true → hasNoscriptText t = false
-  | .text _, _, _, _ => rfl
-  | .block _, _, _, _ => rfl
-  | .frag _, _, _, _ => rfl
-  | .comp _, _, _, _ => rfl
-  | .elem tag attrs kids, ae, anc, h => by
-    simp only [wfT, Bool.and_eq_true, Bool.or_eq_true] at h
-    obtain ⟨_, hcase⟩ := h
-    rcases hcase with ((⟨hg, hkids⟩ | ⟨hv, hempty⟩) | ⟨hraw, hempty⟩) | ⟨htitle, htk⟩
-    · simp [hasNoscriptText, (generic_not_raw hg).1, noNoscriptTextKids kids ae _ hkids]
-    · have hk : kids = [] := by cases kids <;> simp_all
-      subst hk; simp [hasNoscriptText, hasNoscriptTextKids]
-    · have hk : kids = [] := by cases kids <;> simp_all
-      subst hk; simp [hasNoscriptText, hasNoscriptTextKids]
-    · simp only [decide_eq_true_eq] at htitle
-      subst htitle
-      have : tTitle ≠ tNoscript := by decide
-      simp [hasNoscriptText, this, noNoscriptTextKids kids ae (tTitle :: anc) (title_wfTs htk ae _)]
-theorem noNoscriptTextKids : (ts : List Tmpl) → ∀ (ae : Bool) (anc : List Str), wfTs ae anc ts = true →
-    hasNoscriptTextKids ts = false
-  | [], _, _, _ => rfl
-  | t :: ts, ae, anc, h => by
-    simp only [wfTs, Bool.and_eq_true] at h
-    simp [hasNoscriptTextKids, noNoscriptText t ae anc h.1, noNoscriptTextKids ts ae anc h.2]
-end
-
-theorem classWs_ok (tag : Str) (attrs : List TAttr) (kids : List Tmpl) (h : tattrsOK attrs = true) :
-    (Seen.belem tag attrs kids).classWs = false := by
-  simp only [tattrsOK, Bool.and_eq_true] at h
-  have hok := h.1.1.1
-  simp only [Seen.classWs, Bool.not_eq_false', List.all_eq_true, List.mem_flatMap]
-  rintro s ⟨a, ha, hs⟩
-  have := List.all_eq_true.mp hok a ha
-  cases a <;> simp_all [attrClassStrings, tattrOK]
-
-mutual
-theorem seen_ok : (t : Tmpl) → ∀ (top : Bool) (anc : List Str), wfT false anc t = true →
-    (seenNode top true t).all (fun s => !s.bad) = true
-  | .text s, _, _, h => by
-    simp only [wfT, Bool.and_eq_true, Bool.false_or, bne_iff_ne, ne_eq] at h
-    cases s with
-    | nil => exact absurd rfl h.2
-    | cons c cs => simp [seenNode, Seen.bad, Seen.noscriptInert, Seen.rawMarker, Seen.classWs, Seen.emptyText]
-  | .block s, _, _, h => by
-    simp only [wfT, Bool.and_eq_true, Bool.false_or, bne_iff_ne, ne_eq] at h
-    cases s with
-    | nil => exact absurd rfl h.2
-    | cons c cs => simp [seenNode, Seen.bad, Seen.noscriptInert, Seen.rawMarker, Seen.classWs, Seen.emptyText]
-  | .elem tag attrs kids, top, anc, h => by
+theorem seen_ok : (t : Tmpl) → ∀ (top esc : Bool) (anc : List Str), wfT anc t = true →
+    (seenNode top esc t).all (fun s => !s.rawMarker) = true
+  | .text s, _, _, _, _ => by simp [seenNode, Seen.rawMarker]
+  | .block s, _, _, _, _ => by simp [seenNode, Seen.rawMarker]
+  | .elem tag attrs kids, top, esc, anc, h => by
     by_cases hb : (!top && isInert (.elem tag attrs kids)) = true
-    · have := noNoscriptText _ false anc h
-      simp [seenNode, hb, Seen.bad, Seen.noscriptInert, Seen.rawMarker, Seen.classWs, Seen.emptyText, this]
-    · have hw := h
-      simp only [wfT, Bool.and_eq_true, Bool.or_eq_true] at h
-      obtain ⟨⟨hattrs, _⟩, hcase⟩ := h
-      have hc := classWs_ok tag attrs kids hattrs
+    · simp [seenNode, hb, Seen.rawMarker]
+    · simp only [wfT, Bool.and_eq_true, Bool.or_eq_true] at h
+      obtain ⟨_, hcase⟩ := h
       have key : ∀ (hm : ((!escapeChildren tag || decide (tag = tTitle)) && adjacentTexts kids) = false)
-          (body : macroIsVoid tag = false → (seenKids false (escapeChildren tag) kids).all (fun s => !s.bad) = true),
-          (seenNode top true (.elem tag attrs kids)).all (fun s => !s.bad) = true := by
+          (body : (seenKids false (escapeChildren tag) kids).all (fun s => !s.rawMarker) = true),
+          (seenNode top esc (.elem tag attrs kids)).all (fun s => !s.rawMarker) = true := by
         intro hm body
         simp only [seenNode, hb, if_false, List.all_cons, Bool.and_eq_true, Bool.false_eq_true]
-        refine ⟨by simp [Seen.bad, Seen.noscriptInert, Seen.rawMarker, Seen.emptyText, hc, hm], ?_⟩
+        refine ⟨by simp [Seen.rawMarker, hm], ?_⟩
         cases hv : macroIsVoid tag
-        · simpa using body hv
+        · simpa using body
         · simp
       rcases hcase with ((⟨hg, hkids⟩ | ⟨hv, hempty⟩) | ⟨hraw, hempty⟩) | ⟨htitle, htk⟩
       · obtain ⟨f1, f2, f3, f4⟩ := generic_facts hg
-        exact key (by simp [f2, (generic_not_raw hg).2]) (fun _ => by rw [f2]; exact seen_ok_kids kids false (tag :: anc) hkids)
+        exact key (by simp [f2, generic_not_title hg]) (seen_ok_kids kids false _ (tag :: anc) hkids)
       · have hk : kids = [] := by cases kids <;> simp_all
         subst hk
-        exact key (by simp [adjacentTexts]) (fun _ => by simp [seenKids])
+        exact key (by simp [adjacentTexts]) (by simp [seenKids])
       · have hk : kids = [] := by cases kids <;> simp_all
         subst hk
-        exact key (by simp [adjacentTexts]) (fun _ => by simp [seenKids])
+        exact key (by simp [adjacentTexts]) (by simp [seenKids])
       · simp only [decide_eq_true_eq] at htitle
         subst htitle
-        obtain ⟨f1, f2, f3, f4, _⟩ := title_facts
-        obtain ⟨s, hk, _, _⟩ := titleKidsT_cases htk
+        obtain ⟨s, hk, _⟩ := titleKidsT_cases htk
         exact key (by rcases hk with rfl | rfl <;> simp [adjacentTexts])
-          (fun _ => by rw [f2]; exact seen_ok_kids kids false (tTitle :: anc) (title_wfTs htk false (tTitle :: anc)))
-  | .frag kids, top, anc, h => by
+          (seen_ok_kids kids false _ (tTitle :: anc) (title_wfTs htk (tTitle :: anc)))
+  | .frag kids, top, esc, anc, h => by
     simp only [wfT] at h
-    simpa [seenNode] using seen_ok_kids kids true anc h
-  | .comp kids, top, anc, h => by
+    simpa [seenNode] using seen_ok_kids kids true esc anc h
+  | .comp kids, top, esc, anc, h => by
     simp only [wfT, Bool.and_eq_true] at h
-    have ih := seen_ok_kids kids true _ h.2
+    have ih := seen_ok_kids kids true true _ h.2
     have e : escapeChildren sSection = true := by decide
     have t : sSection ≠ tTitle := by decide
-    have hd : (Seen.belem sSection [] kids).bad = false := by
-      simp [Seen.bad, Seen.noscriptInert, Seen.rawMarker, Seen.classWs, Seen.emptyText, e, t]
+    have hd : (Seen.belem sSection [] kids).rawMarker = false := by simp [Seen.rawMarker, e, t]
     simp only [seenNode, List.all_cons, Bool.and_eq_true, hd, Bool.not_false, true_and]
     exact ih
-theorem seen_ok_kids : (ts : List Tmpl) → ∀ (top : Bool) (anc : List Str), wfTs false anc ts = true →
-    (seenKids top true ts).all (fun s => !s.bad) = true
-  | [], _, _, _ => by simp [seenKids]
-  | t :: ts, top, anc, h => by
+theorem seen_ok_kids : (ts : List Tmpl) → ∀ (top esc : Bool) (anc : List Str), wfTs anc ts = true →
+    (seenKids top esc ts).all (fun s => !s.rawMarker) = true
+  | [], _, _, _, _ => by simp [seenKids]
+  | t :: ts, top, esc, anc, h => by
     simp only [wfTs, Bool.and_eq_true] at h
     simp only [seenKids, List.all_append, Bool.and_eq_true]
-    exact ⟨seen_ok t top anc h.1, seen_ok_kids ts top anc h.2⟩
+    exact ⟨seen_ok t top esc anc h.1, seen_ok_kids ts top esc anc h.2⟩
 end
+
+/-- `C06_structure_preserved` (Theorems/C06.lean), re-derived here from the same lemma `run_kids` so that the
+C18 theorems depend on C06's proofs but not on the evaluation of C06's witnesses -/
+theorem structure_preserved (v : List Node) (h : wfKids [[]] v = true) :
+    parse (toHtml v) = some (structureOf v) := by
+  have := run_kids v rootFrame [] .firstChild h (by decide) (by decide)
+  unfold parse initState toHtml
+  rw [this]
+  simp [finish, rootFrame, structureOf]
 
 end Leptos.Macro
